@@ -61,6 +61,13 @@ MODES = {
     "sys.exit(4) finally sys.exit(0)": ("try:\n    sys.exit(4)\nfinally:\n    sys.exit(0)", 0, False),
     "thread sys.exit(0) then sys.exit(3)": ("import threading\n_t = threading.Thread(target=lambda: sys.exit(0))\n_t.start()\n_t.join()\nsys.exit(3)", 3, False),
     "caught sys.exit(0) then ValueError": ("try:\n    sys.exit(0)\nexcept SystemExit:\n    pass\nraise ValueError('boom')", 1, False),
+    # the application installed its own sys.excepthook BEFORE importing pysnark, and that hook itself exits / fails
+    "ValueError, user hook exits 3": ("raise ValueError('boom')", 3, False,
+                                      "import traceback\ndef _hook(tp, ex, tb):\n    traceback.print_exception(tp, ex, tb)\n    raise SystemExit(3)\nsys.excepthook = _hook"),
+    "ValueError, user hook raises": ("raise ValueError('boom')", 1, False,
+                                     "def _hook(tp, ex, tb):\n    raise RuntimeError('hook broke')\nsys.excepthook = _hook"),
+    "ValueError, user hook returns": ("raise ValueError('boom')", 1, False,
+                                      "def _hook(tp, ex, tb):\n    sys.stderr.write('logged\\n')\nsys.excepthook = _hook"),
 }
 BACKENDS = ["snarkjs", "zkinterface", "qaptools"]
 ARTEFACTS = {
@@ -79,10 +86,13 @@ STATEMENTS = {
 }
 
 
-def script(mode, k, n, autoprove, flavour="mul"):
+def script(mode, k, n, autoprove, flavour="mul", chdir=False):
     term = MODES[mode][0]
     stm = STATEMENTS[flavour]
-    L = ["import sys", "import site", "import json", "import pysnark.runtime as rt", "from pysnark.runtime import PrivVal, PubVal",
+    prelude = MODES[mode][3] if len(MODES[mode]) > 3 else "pass"
+    L = ["import sys", "import site", "import json", "import os", prelude, "import pysnark.runtime as rt", "from pysnark.runtime import PrivVal, PubVal",
+         # the script moves to its output directory after the imports: artefacts belong where the script is when it ends
+         "os.makedirs('out'); os.chdir('out')" if chdir else "pass",
          "_orig = rt.backend.prove",
          "def _counted(*a, **kw):",
          "    open('prove_calls', 'a').write('x')",
@@ -124,7 +134,7 @@ def script(mode, k, n, autoprove, flavour="mul"):
 
 
 def expected_executed(mode, k, n):
-    term, status, cont = MODES[mode]
+    term, status, cont = MODES[mode][:3]
     if term is None or cont:
         return n
     return k
@@ -134,9 +144,13 @@ def run_case(case, tmp):
     """returns (message or None, key)"""
     mode, k, n, backend, autoprove = case["mode"], case["k"], case["n"], case["backend"], case["autoprove"]
     for f in os.listdir(tmp):
-        os.remove(os.path.join(tmp, f))
+        if os.path.isdir(os.path.join(tmp, f)):
+            shutil.rmtree(os.path.join(tmp, f))
+        else:
+            os.remove(os.path.join(tmp, f))
     flavour = case.get("flavour", "mul")
-    open(os.path.join(tmp, "prog.py"), "w").write(script(mode, k, n, autoprove, flavour))
+    chdir = bool(case.get("chdir"))
+    open(os.path.join(tmp, "prog.py"), "w").write(script(mode, k, n, autoprove, flavour, chdir))
     envv = dict(os.environ)
     envv.update({"PYSNARK_BACKEND": backend, "QAPTOOLS_BIN": os.path.join(backends.SHIMS, "qapbin"),
                  "PYTHONPATH": backends.REPO + os.pathsep + os.path.join(backends.SHIMS, "fb") + core.COVPATH,
@@ -146,13 +160,14 @@ def run_case(case, tmp):
                            timeout=120, start_new_session=True)
     except subprocess.TimeoutExpired:
         return "inconclusive", "timeout"
-    rd = lambda f: open(os.path.join(tmp, f), "rb").read()
-    exists = lambda f: os.path.exists(os.path.join(tmp, f))
+    base = os.path.join(tmp, "out") if chdir else tmp
+    rd = lambda f: open(os.path.join(base, f), "rb").read()
+    exists = lambda f: os.path.exists(os.path.join(base, f))
     if "rt.backend" in r.stderr and "AttributeError" in r.stderr and "prove" in r.stderr:
         raise core.HarnessError("prologue failed: %s" % r.stderr[-300:])
     if exists("prove_calls") is False and "No module named" in r.stderr:
         raise core.HarnessError("child could not import: %s" % r.stderr[-300:])
-    term, status, cont = MODES[mode]
+    term, status, cont = MODES[mode][:3]
     nexec = len(rd("executed")) if exists("executed") else 0
     want_exec = expected_executed(mode, k, n)
     if nexec != want_exec:
@@ -173,7 +188,13 @@ def run_case(case, tmp):
         return "%s: exit status %r, plain Python gives %r; stderr: %s" % (tag, r.returncode, status, r.stderr.strip()[-200:]), "status"
     calls = len(rd("prove_calls")) if exists("prove_calls") else 0
     arte = [f for f in ARTEFACTS[backend] if exists(f)]
-    hook_tb = "Exception ignored in atexit callback" in r.stderr or ("atexitmaybe" in r.stderr and "Traceback" in r.stderr)
+    if chdir:
+        stray = [f for f in ARTEFACTS[backend] if os.path.exists(os.path.join(tmp, f))]
+        if stray:
+            return "%s: the script had moved to its output directory, yet %r appeared in the directory it was started in" % (
+                "%s on %s" % (mode, backend), stray), "artefact-in-import-directory"
+    # a traceback that merely passes through pysnark's excepthook wrapper (the application's own hook raising) is not ours
+    hook_tb = "Exception ignored in atexit callback" in r.stderr or ("in maybe_" in r.stderr and "Traceback" in r.stderr)
     if not autoprove:
         if calls or arte:
             return "%s: automatic proving is off but prove ran %d time(s), artefacts %r" % (tag, calls, arte), "autoprove-off-produced"
@@ -227,7 +248,7 @@ def shard(cases):
         for case in cases:
             msg, key = run_case(case, tmp)
             key = key.replace(" ", "_") if key else key
-            term, status, cont = MODES[case["mode"]]
+            term, status, cont = MODES[case["mode"]][:3]
             failing = status != 0
             nt = (case["k"] < case["n"] and failing) or expected_executed(case["mode"], case["k"], case["n"]) == case["n"]
             if msg == "inconclusive":
@@ -280,6 +301,8 @@ def run(ctx):
             # the same termination with other kinds of statements (assertions, comparisons, divisions, bit decompositions)
             if ctx.tier != "quick" or k in (0, n):
                 cases.append({"mode": mode, "k": k, "n": n + 5 if ctx.tier == "quick" else n + 2, "backend": backend, "autoprove": ap, "flavour": "mixed"})
+            if k == n and ap and backend != "qaptools":      # qaptools opens its (relative) work files when it is initialised
+                cases.append({"mode": mode, "k": k, "n": n, "backend": backend, "autoprove": ap, "chdir": True})
     jobs = [dict(cases=cases[i::16]) for i in range(16)]
     ctx.stats = core.run_shards("harness.checks.c18", "shard", jobs)
     ctx.exhaustive = True
